@@ -4,6 +4,7 @@ import (
 	"encoding/json"
 	"fmt"
 	"math/rand"
+	"strings"
 
 	"github.com/Factom-Asset-Tokens/factom"
 	"github.com/pegnet/pegnetd/config"
@@ -28,7 +29,7 @@ var HostileKinds = []string{
 	"tx-dup-conversion-later", "tx-truncated", "tx-bitflip", "tx-hostile-numbers", "tx-100", "opr-bad-address", "opr-wrong-version",
 	"opr-dup", "opr-zero-asset", "spr-nonholder", "spr-dup", "spr-wrong-version", "cross-chain", "tx-zero-self-burn", "tx-unknown-json",
 	"tx-empty-extids", "opr-few", "spr-bad-content", "tx-overflow-conversion", "tx-many-outputs", "spr-bad-sig", "opr-lying-difficulty",
-	"tx-big-content", "spr-empty-staker",
+	"tx-big-content", "spr-empty-staker", "tx-missing-type-length-collision",
 }
 
 // TaggedHostileKinds reproduce recorded legacy-era findings (DESIGN.md §7).
@@ -246,6 +247,20 @@ func (x *Hostile) Apply(kind string, v *View, s *forge.BlockSpec) string {
 			}
 		}
 		s.Tx = append(s.Tx, forge.SignedBatch(txs, salt, k))
+	case "tx-missing-type-length-collision":
+		// an input object without a "type" member whose other members make up exactly the length the
+		// reader expects for the error string of an invalid ticker; amounts of 0 pass every funds check
+		k, _, _, ok := x.anyFunded(v)
+		if !ok {
+			return ""
+		}
+		a := k.FA().String()
+		to := x.M.Actors[1].FA().String()
+		for _, amt := range []string{"0", "7"} {
+			pad := strings.Repeat("x", 20-len(amt))
+			s.Tx = append(s.Tx, signedRaw([]byte(fmt.Sprintf(`{"version":1,"transactions":[{"input":{"address":"%s","amount":%s,"typ":"%s"},"transfers":[{"address":"%s","amount":%s}]}]}`, a, amt, pad, to, amt)), k))
+			s.Tx = append(s.Tx, signedRaw([]byte(fmt.Sprintf(`{"version":1,"transactions":[{"input":{"address":"%s","amount":%s,"typ":"%s"},"conversion":"pUSD"}]}`, a, amt, pad)), k))
+		}
 	case "tx-big-content":
 		k, _, _, ok := x.anyFunded(v)
 		if !ok {
